@@ -21,6 +21,7 @@ func checkC05(r *Result) {
 	r.rule("CENSUS-STAKING", "the staking ledger is mutated only at the known sites of x/reporter/keeper")
 	r.rule("PAIR-DELEGATE", "a Delegate without account subtraction is paired with a transfer of the same amount into the pool matching its token source")
 	r.rule("PAIR-UNBOND", "the amount moved to the dispute escrow is the amount Unbond returned, out of the pool matching the validator's status")
+	r.rule("FRESH-VALIDATOR", "the validator value handed to Delegate is a store read of the same loop iteration (Delegate writes the value back)")
 	r.rule("SHARE-OF-MOVED", "what is delegated back per recorded entry is the entry's amount or amount*moved/total, truncated — never more than the pool received")
 	r.rule("RECORD-EQUALS-TAKEN", "per-backer records store the amounts actually taken and their sum")
 
@@ -189,6 +190,39 @@ func checkC05(r *Result) {
 		r.check(passed != "" && passed == moved && to == "bonded_tokens_pool" && from == "dispute" && okAll, "PAIR-DELEGATE", p.dispFn+" # amount re-staked == amount moved dispute -> bonded pool, together", P.Pos(df.Pos()), fmt.Sprintf("re-staked %s ; moved %s from %s to %s", clip(passed, 100), clip(moved, 100), from, to))
 	}
 
+	// ---- FRESH-VALIDATOR: x/staking Delegate writes the validator value it is given back to the store, so
+	// the value must have been read after the last change of that validator: in a loop, in this iteration
+	for _, name := range []string{"(x/reporter/keeper.Keeper).ReturnSlashedTokens", "(x/reporter/keeper.Keeper).FeeRefund", "(x/reporter/keeper.Keeper).AddAmountToStake", "(x/reporter/keeper.msgServer).WithdrawTip"} {
+		fn := P.Func(name)
+		if fn == nil {
+			continue
+		}
+		for _, cs := range P.CallSitesIn(fn) {
+			if !isDelegate(cs) || cs.Fn != fn {
+				continue
+			}
+			leaves, odd := validatorSources(Arg(cs.Instr, 4))
+			var h *ssa.BasicBlock
+			for _, c := range loopHeaders(fn) {
+				if c.Dominates(cs.Instr.Block()) && inLoop(fn, cs.Instr.Block()) && (h == nil || h.Dominates(c)) {
+					h = c
+				}
+			}
+			ok := len(leaves) > 0 && len(odd) == 0
+			var descs []string
+			for _, l := range leaves {
+				cn := CalleeName(l.Common())
+				direct := strings.HasSuffix(cn, "StakingKeeper.GetValidator") || cn == "(x/reporter/keeper.Keeper).GetBondedValidators"
+				inIter := h == nil || (h.Dominates(l.Block()) && inLoop(fn, l.Block()))
+				descs = append(descs, fmt.Sprintf("%s (read in this iteration: %v)", short(cn), inIter))
+				if !direct || !inIter {
+					ok = false
+				}
+			}
+			sort.Strings(descs)
+			r.check(ok, "FRESH-VALIDATOR", name+" # the validator handed to Delegate was read from the staking store in the same iteration", P.Pos(cs.Pos()), fmt.Sprintf("sources: %v ; other: %v", descs, odd))
+		}
+	}
 	// ---- PAIR-UNBOND
 	if mv := need("(x/reporter/keeper.Keeper).MoveTokensFromValidator"); mv != nil {
 		ps := AnalyzePaths(mv, []Atom{{Name: "bonded", Cond: func(rel *Term) (bool, bool) {
@@ -373,6 +407,7 @@ func checkC05(r *Result) {
 	r.minCount("PAIR-UNBOND", 7)
 	r.minCount("RECORD-EQUALS-TAKEN", 6)
 	r.minCount("SHARE-OF-MOVED", 3)
+	r.minCount("FRESH-VALIDATOR", 4)
 }
 
 // enumConstVal: value of a constant in any loaded package.
@@ -439,4 +474,58 @@ func shareForm(p *Poly) string {
 		return "amount*moved/total"
 	}
 	return "other:" + clip(p.String(), 120)
+}
+
+// validatorSources traces a value back to the calls that produced it, through phis, tuple extraction,
+// local variables (all stores), indexing and loads. odd lists sources that are not calls.
+func validatorSources(v ssa.Value) (leaves []*ssa.Call, odd []string) {
+	seen := map[ssa.Value]bool{}
+	var walk func(x ssa.Value, d int)
+	walk = func(x ssa.Value, d int) {
+		if x == nil || seen[x] || d > 14 {
+			return
+		}
+		seen[x] = true
+		switch y := x.(type) {
+		case *ssa.Phi:
+			for _, e := range y.Edges {
+				walk(e, d+1)
+			}
+		case *ssa.Extract:
+			walk(y.Tuple, d+1)
+		case *ssa.Call:
+			leaves = append(leaves, y)
+		case *ssa.UnOp:
+			walk(y.X, d+1)
+		case *ssa.IndexAddr:
+			walk(y.X, d+1)
+		case *ssa.Index:
+			walk(y.X, d+1)
+		case *ssa.Slice:
+			walk(y.X, d+1)
+		case *ssa.FieldAddr:
+			walk(y.X, d+1)
+		case *ssa.ChangeType:
+			walk(y.X, d+1)
+		case *ssa.MakeInterface:
+			walk(y.X, d+1)
+		case *ssa.Alloc:
+			n := 0
+			for _, ref := range *y.Referrers() {
+				if st, ok := ref.(*ssa.Store); ok && st.Addr == ssa.Value(y) {
+					n++
+					walk(st.Val, d+1)
+				}
+			}
+			if n == 0 {
+				odd = append(odd, "uninitialised local "+y.Comment)
+			}
+		case *ssa.Const:
+			// zero value on an edge that fails before the use
+		default:
+			odd = append(odd, fmt.Sprintf("%T %s", x, x.Name()))
+		}
+	}
+	walk(v, 0)
+	return
 }
